@@ -1,5 +1,6 @@
 mod common;
 mod stream;
+mod matrix;
 mod codec;
 mod rng;
 mod sign;
@@ -65,6 +66,7 @@ fn main() {
         "rng-list" => rng::cmd_list(rest),
         "rng-trace" => rng::cmd_trace(rest),
         "codec" => codec::cmd_codec(rest),
+        "transcript" => matrix::cmd_transcript(rest),
         "inc-splits" => inchash::cmd_splits(rest),
         "inc-replay" => inchash::cmd_replay(rest),
         "inc-trace" => inchash::cmd_trace(rest),
